@@ -30,7 +30,10 @@ type c19Exchange struct {
 	Hang  bool          `json:"upstream_never_answers,omitempty"`
 	Body  int           `json:"body"`
 	// Upload: the request is a POST with a body and, when Expect is set, an "Expect: 100-continue" header.
-	Upload int  `json:"upload_bytes,omitempty"`
+	// SlowBody: the upstream answers its head in time and then streams the body in pieces with pauses; the whole
+	// exchange lasts longer than dial timeout + response-header timeout
+	SlowBody bool `json:"slow_body,omitempty"`
+	Upload   int  `json:"upload_bytes,omitempty"`
 	Expect bool `json:"expect_100_continue,omitempty"`
 }
 
@@ -42,6 +45,7 @@ type c19Scenario struct {
 	MaxConn               int           `json:"max_conn"`
 	Exchanges             []c19Exchange `json:"exchanges"`
 	Burst                 int           `json:"burst"` // concurrent requests to one upstream (0: none)
+	BurstRoute            string        `json:"burst_route,omitempty"`
 }
 
 var c19Keys = map[string]string{"default": "up0.sim:80", "skipverify": "up1.sim:443", "perroute": "up2.sim:443", "blackhole": "up3.sim:80", "burst": "up4.sim:80"}
@@ -76,10 +80,17 @@ func runC19(r *simcore.Run) {
 			ex.Upload = g.Range(1, 3000)
 			ex.Expect = g.Chance(60)
 		}
+		if !ex.Hang && ex.Delay < T && ex.Route != "blackhole" && g.Chance(25) {
+			ex.SlowBody = true
+			if ex.Body < 8 {
+				ex.Body = 8
+			}
+		}
 		sc.Exchanges = append(sc.Exchanges, ex)
 	}
 	if g.Chance(40) {
 		sc.Burst = sc.MaxConn + g.Range(1, 3)
+		sc.BurstRoute = simcore.Pick(g, []string{"burst", "perroute", "skipverify"})
 	}
 	r.SetSample(sc)
 
@@ -116,6 +127,11 @@ func runC19(r *simcore.Run) {
 		rq := h2Req{ID: fmt.Sprintf("x%d", i), Method: "GET", Path: "/" + ex.Route + "/r", Host: "fabio.sim",
 			Headers: []h2Header{{"Accept-Encoding", "identity"}},
 			Resp:    h2Resp{Status: 200, Body: g.Bytes(ex.Body), Delay: ex.Delay, Hang: ex.Hang, Headers: []h2Header{{"Content-Type", "application/octet-stream"}}}}
+		if ex.SlowBody {
+			// four pieces, each after a pause of (dial timeout + response-header timeout)/2: the head is in time, the body is not "fast"
+			rq.Resp.Chunks = []int{1, 1, 1, 1}
+			rq.Resp.BodyPause = (sc.DialTimeout + sc.ResponseHeaderTimeout) / 2
+		}
 		if ex.Upload > 0 {
 			rq.Method = "POST"
 			rq.Body = g.Bytes(ex.Upload)
@@ -189,7 +205,7 @@ func runC19(r *simcore.Run) {
 	if sc.Burst > 0 {
 		var ids []string
 		for i := 0; i < sc.Burst; i++ {
-			rq := h2Req{ID: fmt.Sprintf("b%d", i), Method: "GET", Path: "/burst/r", Host: "fabio.sim", Headers: []h2Header{{"Accept-Encoding", "identity"}},
+			rq := h2Req{ID: fmt.Sprintf("b%d", i), Method: "GET", Path: "/" + sc.BurstRoute + "/r", Host: "fabio.sim", Headers: []h2Header{{"Accept-Encoding", "identity"}},
 				Resp: h2Resp{Status: 200, Body: []byte("ok"), Delay: 10 * time.Millisecond}}
 			ids = append(ids, rq.ID)
 			e.client(&h2Client{Addr: fmt.Sprintf("192.0.2.%d:6000", 50+i), Reqs: []h2Req{rq}})
@@ -203,8 +219,9 @@ func runC19(r *simcore.Run) {
 				r.Fail("burst", "request-failed", "burst request %s: status=%d err=%v", id, res.Status, res.Err)
 			}
 		}
+		// connections of this transport that are idle now: the ones the burst opened (or reused) and that are still open
 		open := 0
-		for _, c := range e.net.Conns(c19Keys["burst"]) {
+		for _, c := range e.net.Conns(c19Keys[sc.BurstRoute]) {
 			if !c.IsClosed() {
 				open++
 			}
